@@ -31,6 +31,22 @@ from xdis.cross_dis import (
 )
 from xdis.version_info import IS_PYPY, PYTHON_VERSION_TRIPLE
 
+
+def _verif_trace(ev, loc, **kw):
+    """Verification hook (off unless XDIS_VERIF_HOOKS=1): append one JSON line per
+    opcode-table edit to the file named by XDIS_VERIF_TRACE."""
+    import os
+
+    if os.environ.get("XDIS_VERIF_HOOKS") != "1" or not os.environ.get("XDIS_VERIF_TRACE"):
+        return
+    import json
+
+    kw["ev"] = ev
+    kw["module"] = loc.get("__name__", "?")
+    with open(os.environ["XDIS_VERIF_TRACE"], "a") as f:
+        f.write(json.dumps(kw) + "\n")
+
+
 cmp_op = (
     "<",  # 0
     "<=",  # 1
@@ -116,6 +132,12 @@ def init_opdata(loc, from_mod, version_tuple=None, is_pypy=False):
     for the module is passed.
     """
 
+    _verif_trace(
+        "init",
+        loc,
+        parent=getattr(from_mod, "__name__", None),
+        version=list(version_tuple) if version_tuple is not None else None,
+    )
     if version_tuple is not None:
         loc["python_version"] = version_tuple
     loc["is_pypy"] = is_pypy
@@ -217,6 +239,14 @@ def def_op(
     push: int = -2,
     fallthrough: bool = True,
 ):
+    _verif_trace(
+        "def",
+        loc,
+        name=op_name,
+        opcode=opcode,
+        old_name=loc["opname"][opcode],
+        old_opcode=loc["opmap"].get(op_name, -1),
+    )
     loc["opname"][opcode] = op_name
     loc["opmap"][op_name] = opcode
     loc["oppush"][opcode] = push
@@ -312,6 +342,9 @@ def rm_op(loc, name, op):
     We are pretty aggressive about removing traces of the op.
     """
 
+    _verif_trace(
+        "rm", loc, name=name, opcode=op, cur_name=loc["opname"][op], cur_opcode=loc["opmap"].get(name, -1)
+    )
     # opname is an array, so we need to keep the position in there.
     loc["opname"][op] = "<%s>" % op
 
@@ -394,6 +427,7 @@ def finalize_opcodes(loc):
     """
     Things done to Python codes after all opcode have been defined.
     """
+    _verif_trace("finalize", loc)
     # Not sure why, but opcode.py address has opcode.EXTENDED_ARG
     # as well as opmap['EXTENDED_ARG']
     loc["EXTENDED_ARG"] = loc["opmap"]["EXTENDED_ARG"]
